@@ -157,6 +157,10 @@ def check_property(prop, tier, seed, timeout_s):
             if spec.get("effects_oracle"):
                 o.func = spec["effects_oracle"]
         all_obls += eobls
+    if spec.get("wiring"):
+        from . import cliwiring
+        wobls, _opts = cliwiring.obligations()
+        all_obls += wobls
     if os.environ.get("VERIF_SAVE_LADDER_HINTS"):
         discharge.save_hints(all_obls)
     # vacuity: no reachability point may have contradictory hypotheses
